@@ -276,6 +276,25 @@ func (p *Path) intrinsic(fn *ssa.Function, args []Value) (Value, bool) {
 	case "math/bits.TrailingZeros32", "math/bits.TrailingZeros64", "math/bits.TrailingZeros", "math/bits.TrailingZeros16", "math/bits.TrailingZeros8":
 		x := args[0].(*Term)
 		return p.toWordU(p.ts.Ctz(x)), true
+	case "(encoding/binary.bigEndian).Uint16", "(encoding/binary.bigEndian).Uint32", "(encoding/binary.bigEndian).Uint64":
+		n := map[string]int{"Uint16": 2, "Uint32": 4, "Uint64": 8}[fn.Name()]
+		s := args[1].(SliceV)
+		if s.len < n {
+			p.faultNow("index out of range")
+		}
+		return p.chunkWord(s.arr, s.off, n), true
+	case "(encoding/binary.bigEndian).PutUint16", "(encoding/binary.bigEndian).PutUint32", "(encoding/binary.bigEndian).PutUint64":
+		n := map[string]int{"PutUint16": 2, "PutUint32": 4, "PutUint64": 8}[fn.Name()]
+		s := args[1].(SliceV)
+		if s.len < n {
+			p.faultNow("index out of range")
+		}
+		v := args[2].(*Term)
+		for i := 0; i < n; i++ {
+			hi := 8*(n-i) - 1
+			p.store(s.arr.kids[s.off+i], p.ts.Extract(v, hi, hi-7))
+		}
+		return nil, true
 	case "math.IsNaN":
 		return p.ts.FIsNaN(args[0].(*Term)), true
 	case "math.IsInf":
@@ -517,6 +536,12 @@ func (p *Path) vpPrimitive(name string, fn *ssa.Function, args []Value) Value {
 	case "vpIsConcrete":
 		t := p.simp(args[0].(*Term))
 		return ts.Bool(t.op == OConst)
+	case "vpFpLt32", "vpFpLt64":
+		return ts.FCmpTheory(OFLt, args[0].(*Term), args[1].(*Term))
+	case "vpFpEq32", "vpFpEq64":
+		return ts.FCmpTheory(OFEq, args[0].(*Term), args[1].(*Term))
+	case "vpFpIsNaN32", "vpFpIsNaN64":
+		return ts.FIsNaNTheory(args[0].(*Term))
 	case "vpRegister":
 		return nil
 	case "vpApi":
